@@ -319,12 +319,16 @@ def run(tier, seed, rep):
                     continue
                 for ka in (False, True):
                     for (T, R) in grid:
-                        if tier == 'quick' and op not in ('read_sensor', 'read_setting', 'write_setting') and R > 0:
-                            cfg = dict(family=fam, op=op, transport=tr, ka=ka, T=T, R=R)
-                            ja.append((cfg, 2, 1))
-                            continue
-                        cfg = dict(family=fam, op=op, transport=tr, ka=ka, T=T, R=R, conn=(op == 'read_setting' or fam == 'DT'))
-                        ja.append((cfg, R + 1 + (R + 1 if cfg['conn'] and tr == 'tcp' else 0), None if R <= 1 else 3))
+                        single = op in ('read_sensor', 'read_setting', 'write_setting')
+                        cfg = dict(family=fam, op=op, transport=tr, ka=ka, T=T, R=R,
+                                   conn=(single and (op == 'read_setting' or fam == 'DT')))
+                        if single:
+                            # one request: full product over the alphabet to depth R+1 (R<=1), 3 deviations for R=2
+                            ja.append((cfg, R + 1 + (R + 1 if cfg['conn'] and tr == 'tcp' else 0), None if R <= 1 else 3))
+                        else:
+                            # several requests per call: the first request gets the full product at R=0, deeper
+                            # positions are reached by deviation bounding
+                            ja.append((cfg, 3 * (R + 1), 1 if tier == 'quick' else 2))
     k = seed % len(ja)
     ja = ja[k:] + ja[:k]
     for st in pmap(job_a, ja):
